@@ -252,6 +252,13 @@ func (ds *dataSet) TruncateGap() (*dataSetRdb, []*dataSetAof) {
 		}
 	}
 
+	// the snapshot is only usable together with the log that starts at its offset: if the oldest
+	// remaining segment starts later, the snapshot is separated from the newest data by a gap too
+	if ds.rdb != nil && len(ds.aofSegs) > 0 && ds.aofSegs[0].Left() != ds.rdb.left {
+		rdb = ds.rdb
+		ds.rdb = nil
+	}
+
 	ds.aofMap = make(map[int64]*dataSetAof)
 	for _, a := range ds.aofSegs {
 		ds.aofMap[a.left] = a
